@@ -326,11 +326,12 @@ def suites_for(pid, rng, tier):
     FG = ("fgroup", "fgroup_keyed")
     SG = ("sgroup", "sgroup_keyed")
 
-    def nest_sim(name):
-        """a Vec join of two Vec joins, a.join(b) of two Vec joins, a Vec merge of two Vec merges (std build), predicted by composing the extracted model with itself (runner/main.ml nest_trace):
+    def nest_sim(name, cfgs=("std", "alloc")):
+        """a Vec join of two Vec joins, a.join(b) of two Vec joins, a Vec merge of two Vec merges (std and alloc builds), predicted by composing the extracted model with itself (runner/main.ml nest_trace):
            kind "nsim" = like "scan" (model trace compared under the projection, monitor on the implementation's trace), without the corpus and
            without the extracted single-level predicates"""
-        S.append((name, "std", "nsim", gen.gen_nest(rng, ks // 2, "ys", combs=("nest_jj", "nest_mm", "nest_jt"), local=True)))
+        for c in cfgs:
+            S.append((name, c, "nsim", gen.gen_nest(rng, ks // 2, "y" + c[0], combs=("nest_jj", "nest_mm", "nest_jt"), local=True)))
     if pid == "C01":
         fixed("wake", CFG3, SCAN4 + ["race", "race_ok", "chain"])
         fixed("wake-large", ("std", "alloc"), SCAN4, ks // 4, large=True)
@@ -400,7 +401,7 @@ def suites_for(pid, rng, tier):
         groups("selective-groups", ("std",), FG + SG, k)
         small("selective-join", ("std",), "join")
         small("selective-merge", ("std",), "merge")
-        nest_sim("selective-nest-sim")
+        nest_sim("selective-nest-sim", ("std",))
         return "polls-nv", S
     if pid == "C17":
         for c in CFG3:
